@@ -14,6 +14,9 @@ use crate::util::{esc, Mix};
 use proptest::prelude::*;
 
 pub fn check(_sub: &str, cfg: &'static dyn Config, input: &Input, rec: &mut Rec) -> Verdict {
+    if cfg.name() == "std" {
+        crate::engine::collect(input);
+    }
     match input {
         Input::History { lines } => {
             let mut p = cfg.new_parser();
@@ -222,6 +225,9 @@ pub fn run(ctx: &mut Ctx) {
         "inputs longer than about 1100 payload characters are not generated".into(),
         "a case running longer than 60 s is reported as non-termination".into(),
     ];
+    if ctx.tier == crate::engine::Tier::Thorough {
+        crate::engine::collector_enable();
+    }
     ctx.replay_regressions(check);
     let l = ctx.tier.pick(3, 4);
     for cfg in configs() {
@@ -253,4 +259,5 @@ pub fn run(ctx: &mut Ctx) {
         let un = (proptest::collection::vec(any::<u8>(), 0..40), 0usize..6).prop_map(|(data, fill)| Input::Unarmor { data, fill });
         ctx.run_proptest("unarmor-arbitrary", cfg, n / 2, un, check);
     }
+    ctx.fidelity_pass();
 }
